@@ -7,9 +7,13 @@ Local Open Scope Z_scope.
 
 Definition text := list Z.      (* a Python str: code points *)
 
-(* six.ensure_binary(s) on a str: s.encode("utf-8"), which raises for lone surrogates *)
+(* the text -> bytes step of truncate (error handler read from the source): "strict" raises for lone surrogates,
+   "backslashreplace" escapes them *)
 Definition encode_text (t : text) : res (list Z) :=
-  if forallb scalarb t then Ok (utf8 t) else Exc "UnicodeEncodeError"%string.
+  match text_encode_errors with
+  | Strict => if forallb scalarb t then Ok (utf8 t) else Exc "UnicodeEncodeError"%string
+  | BackslashReplace => Ok (utf8 (escape t))
+  end.
 
 (* six.ensure_binary(truncate(s, limit)) for a str s; `truncate` itself only encodes a non-empty s *)
 Definition trunc_field (t : text) (limit : Z) : res (list Z) :=
@@ -22,6 +26,7 @@ Definition trunc_field (t : text) (limit : Z) : res (list Z) :=
 Record exc := {
   e_type : text;                 (* reflect.qual(obj.type) *)
   e_str : res text;              (* str(obj.value): an exception class may make it raise *)
+  e_fallback : text;             (* what reflect.safe_str(obj.value) returns when str() raises *)
   e_stack : text;                (* obj.getTraceback() *)
   e_parents : list text          (* obj.parents *)
 }.
@@ -43,8 +48,12 @@ Fixpoint map_res {A B} (f : A -> res B) (l : list A) : res (list B) :=
               end
   end.
 
+(* state['value'] = str(obj.value)  or  reflect.safe_str(obj.value), whichever the source uses *)
+Definition render (e : exc) : res text :=
+  if value_rendering_is_safe then Ok (match e_str e with Ok v => v | Exc _ => e_fallback e end) else e_str e.
+
 Definition get_state (unsafe : bool) (e : exc) : res fstate :=
-  match e_str e with
+  match render e with
   | Exc t => Exc t
   | Ok v =>
     match trunc_field v trunc_limit_value with
